@@ -630,25 +630,43 @@ Proof. unfold postQ, bind, ret. intros H Hs. specialize (H Hs). destruct (m w) a
 Lemma apply_eod_intervals_st s p : st (apply_eod_intervals s p) = st s.
 Proof. unfold apply_eod_intervals. destruct (_ && _); reflexivity. Qed.
 
-Ltac qside :=
-  first [ apply (Q_nosend _ _ []);
-            [reflexivity | nosend_tac | vred; rewrite ?apply_eod_intervals_version; reflexivity
-            | unfold shut; vred; cbn [sk st]; rewrite ?apply_eod_intervals_st; auto]
-        | eapply Q_nosend;
-            [cbn [out]; reflexivity | nosend_tac | vred; rewrite ?apply_eod_intervals_version; reflexivity
-            | unfold shut; vred; cbn [sk st]; rewrite ?apply_eod_intervals_st; auto] ].
-Ltac qprim := eapply postQ_step; [unfold_prims; reflexivity | qside | ].
+(* primitive steps send nothing *)
+Lemma set_sk_Q s w : version s = version (sk w) -> st s = st (sk w) -> postQ (set_sk s) w (fun _ _ l => l = []).
+Proof.
+  intros Hv Hst Hs. unfold set_sk. exists []. split; [|reflexivity].
+  apply (Q_nosend _ _ []); [reflexivity|nosend_tac|exact Hv|unfold shut; cbn [sk]; now rewrite Hst].
+Qed.
+Lemma modify_sk_Q f w : (forall s, version (f s) = version s /\ st (f s) = st s) -> postQ (modify_sk f) w (fun _ _ l => l = []).
+Proof.
+  intros Hf Hs. unfold modify_sk, bind, get_sk, set_sk. exists []. split; [|reflexivity]. destruct (Hf (sk w)) as [Hv Hst].
+  apply (Q_nosend _ _ []); [reflexivity|nosend_tac|exact Hv|unfold shut; cbn [sk]; now rewrite Hst].
+Qed.
+Lemma emit_all_Q t w : nosend t -> postQ (emit_all t) w (fun _ _ l => l = []).
+Proof.
+  intros Hn Hs. unfold emit_all. exists []. split; [|reflexivity].
+  apply (Q_nosend _ _ t); [reflexivity|exact Hn|reflexivity|auto].
+Qed.
+Lemma set_tables_Q P K w : postQ (set_tables P K) w (fun _ _ l => l = []).
+Proof.
+  intros Hs. unfold set_tables. exists []. split; [|reflexivity].
+  apply (Q_nosend _ _ []); [reflexivity|nosend_tac|reflexivity|auto].
+Qed.
+Lemma ret_Q {A} (a : A) w : postQ (ret a) w (fun _ _ l => l = []).
+Proof. apply postQ_ret. reflexivity. Qed.
+
+Ltac qcont := let HQ := fresh "HQ" in intros ? ? ? HQ ->; cbn [app].
 Ltac qstep :=
   match goal with
   | |- postQ (ret _) _ _ => apply postQ_ret
   | |- postQ (bind get_sk _) _ _ => apply postQ_get_sk
   | |- postQ (bind get_w _) _ _ => apply postQ_get_w
   | |- postQ (bind (bind _ _) _) _ _ => apply postQ_assoc
-  | |- postQ (bind (set_sk _) _) _ _ => qprim
-  | |- postQ (bind (emit_all _) _) _ _ => qprim
-  | |- postQ (bind (set_tables _ _) _) _ _ => qprim
-  | |- postQ (bind (modify_sk _) _) _ _ => qprim
-  | |- postQ (bind (ret _) _) _ _ => qprim
+  | |- postQ (bind (set_sk _) _) _ _ =>
+      eapply postQ_bind; [apply set_sk_Q; [rewrite ?apply_eod_intervals_version; reflexivity|rewrite ?apply_eod_intervals_st; reflexivity] | qcont]
+  | |- postQ (bind (emit_all _) _) _ _ => eapply postQ_bind; [apply emit_all_Q; nosend_tac | qcont]
+  | |- postQ (bind (set_tables _ _) _) _ _ => eapply postQ_bind; [apply set_tables_Q | qcont]
+  | |- postQ (bind (modify_sk _) _) _ _ => eapply postQ_bind; [apply modify_sk_Q; intros; split; reflexivity | qcont]
+  | |- postQ (bind (ret _) _) _ _ => eapply postQ_bind; [apply ret_Q | qcont]
   | |- postQ (bind (if ?c then _ else _) _) _ _ => destruct c eqn:?
   | |- postQ (emit_all _) _ _ => apply postQ_last
   | |- postQ (modify_sk _) _ _ => apply postQ_last
@@ -658,10 +676,9 @@ Ltac qstep :=
   | |- postQ ((fun _ => _) _) _ _ => cbv beta
   end.
 
-Lemma src_remove_all_Q w : postQ src_remove_all w (fun _ w' l => l = [] /\ sk w' = sk w).
-Proof. unfold src_remove_all. repeat qstep. split; reflexivity. Qed.
-Lemma purge_after_failed_undo_Q w : postQ purge_after_failed_undo w (fun _ w' l => l = []).
+Lemma src_remove_all_Q w : postQ src_remove_all w (fun _ _ l => l = []).
+Proof. unfold src_remove_all. repeat qstep. reflexivity. Qed.
+Lemma purge_after_failed_undo_Q w : postQ purge_after_failed_undo w (fun _ _ l => l = []).
 Proof.
-  unfold purge_after_failed_undo. eapply postQ_bind; [apply src_remove_all_Q|].
-  intros _ w1 l1 Q1 (-> & Hsk). repeat qstep. reflexivity.
+  unfold purge_after_failed_undo. eapply postQ_bind; [apply src_remove_all_Q|qcont]. repeat qstep. reflexivity.
 Qed.
